@@ -131,6 +131,11 @@ def gen_field_cases(rng, fd, level, lifted=False):
     for _ in range((1, 2, 6)[level]):
         seq.append(('tobits', rng.choice(elems), 0))
     seq.append(('tobits', q - 1, 0))
+    if fd[0] == 'P' and not lifted and q > 2:
+        # partial decompositions: only the l low-order bits requested (the whole element must still fit the intermediate type)
+        for lpart in sorted({1, min(8, (q - 1).bit_length()), max(1, (q - 1).bit_length() - 1)}):
+            seq.append(('tobits', rng.choice(elems), lpart))
+            seq.append(('tobits', q - 1, lpart))
     mixed = [(rng.choice(elems), rng.choice(elems)) for _ in range((2, 4, 12)[level])]
     if fd[0] == 'P' and q < 2**32 and not lifted:   # public ints outside range(q) (lifted types: see report, int*a with int >= q fails)
         mixed = [(a, b + q * rng.choice([-2, -1, 0, 1, 3])) for a, b in mixed]
@@ -268,7 +273,7 @@ def run_config(job):
                         elif not char2 and f.ext_deg > 1:
                             r = 'unsupported'   # TypeError by design: 'Binary field or prime field required.'
                         else:
-                            r = [code(x) for x in await mpc.output(mpc.to_bits(F(a)))]
+                            r = [code(x) for x in await mpc.output(mpc.to_bits(F(a)) if not b else mpc.to_bits(F(a), b))]
                 except Exception as exc:   # noqa
                     r = 'EXC:' + type(exc).__name__
                 rec.case[pid] = None
@@ -500,10 +505,12 @@ def check_field(ctx, cfg, seed, fd, cs, info, res, fi, L):
                 continue
             if r == 'unsupported':
                 continue
-            l = info['bit_length']
+            l = b if b else info['bit_length']
             exp = orc.bits_of(a, l)
             if r != exp:
-                viol('to_bits', (a,), exp, r)
+                viol('to_bits', (a,) if not b else (a, b), exp, r)
+            if b:
+                continue
             if user_char(fd) == 2:
                 ops = [o for o in opened[:-1] if len(o[1]) == 1]
                 if ops:
